@@ -488,6 +488,48 @@ def generate(repo):
         return True if has(src, 'nj = nprime') else False
     g.fact('refractIndicesThreaded', 'prysm/x/raytracing/spencer_and_murty.py:raytrace', refract_indices)
 
+    def index_after():
+        """the refractive index carried to the NEXT surface, per branch of `if surf.typ == REFLECT / elif REFRACT / else`, as
+        assigned to `nj` in the branch (no assignment: unchanged)"""
+        fn = get_def(sm, 'raytrace')
+        loop = [s_ for s_ in fn.body if isinstance(s_, ast.For)][0]
+        chains = [s_ for s_ in loop.body if isinstance(s_, ast.If) and 'surf.typ' in ast.unparse(s_.test)]
+        if len(chains) != 1:
+            raise Untranslatable('raytrace: surface-type dispatch not found')
+        for s_ in loop.body:
+            if s_ is not chains[0] and any(isinstance(n_, ast.Name) and n_.id == 'nj' and isinstance(n_.ctx, ast.Store) for n_ in ast.walk(s_)):
+                raise Untranslatable('raytrace: nj assigned outside the surface-type dispatch')
+        env = {'nj': 'nj', 'nprime': 'nprime', 'n_ambient': 'nAmbient', 'surf.n(wvl)': 'nprime'}
+
+        def final(stmts):
+            cur = 'nj'
+            for st in stmts:
+                stores = {n_.id for n_ in ast.walk(st) if isinstance(n_, ast.Name) and isinstance(n_.ctx, ast.Store)}
+                if 'nj' in stores:
+                    if not (isinstance(st, ast.Assign) and ast.unparse(st.targets[0]) == 'nj' and ast.unparse(st.value) in env):
+                        raise Untranslatable(f'raytrace: index update {ast.unparse(st)[:60]}')
+                    cur = env[ast.unparse(st.value)]
+            return cur
+        node, out = chains[0], {}
+        while True:
+            t = ast.unparse(node.test)
+            key = 'reflect' if 'REFLECT' in t.upper() else 'refract' if 'REFRACT' in t.upper() else None
+            if key is None or key in out or not t.startswith('surf.typ =='):
+                raise Untranslatable(f'raytrace: dispatch test {t}')
+            out[key] = final(node.body)
+            if len(node.orelse) == 1 and isinstance(node.orelse[0], ast.If) and 'surf.typ' in ast.unparse(node.orelse[0].test):
+                node = node.orelse[0]
+                continue
+            out['else'] = final(node.orelse)
+            break
+        if set(out) != {'reflect', 'refract', 'else'}:
+            raise Untranslatable('raytrace: dispatch branches')
+        return ('def indexAfter (isReflect isRefract : Bool) (nAmbient nj nprime : K) : K :=\n'
+                f"  if isReflect then {out['reflect']} else if isRefract then {out['refract']} else {out['else']}")
+    g.item('raytrace.index', 'prysm/x/raytracing/spencer_and_murty.py:raytrace (index carried to the next surface)',
+           lambda: get_def(sm, 'raytrace'), index_after,
+           'def indexAfter (isReflect isRefract : Bool) (nAmbient nj nprime : K) : K := if isRefract && !isReflect then nprime else nj')
+
     def frames_wiring():
         fn = get_def(sm, 'raytrace')
         (cl,) = find_calls(fn, 'transform_to_local_coords')
